@@ -112,6 +112,24 @@ class Report:
     def note(self, text: str) -> None:
         self.notes.append(text)
 
+    def absorb(self, other: "Report", prefix: str) -> None:
+        """Take over the rule instances of another report (a premise checked under another property), relabelled."""
+        for rid, rc in other.rule_counts.items():
+            tgt = self.rule_counts.setdefault(f"{prefix}/{rid}", {"instances": 0, "obligations": 0, "pass": 0, "violations": 0})
+            for k in tgt:
+                tgt[k] += rc[k]
+        for i in other.instances:
+            j = dict(i)
+            j["rule"] = f"{prefix}/{i['rule']}"
+            self.instances.append(j)
+        for v in other.violations:
+            w = dict(v)
+            w["property"] = self.property_id
+            w["rule"] = f"{prefix}/{v['rule']}"
+            self.violations.append(w)
+        for n in other.notes:
+            self.notes.append(n)
+
     def floor(self, expected_min: int, what: str = "") -> None:
         """Fail as analysis-broken when the rule saw fewer instances than were confirmed by hand."""
         got = self.rule_counts[self._rule]["instances"]
